@@ -30,6 +30,11 @@ Case kinds
              after the first round the component's sparsity is changed through an option (both
              problems), ``setup()`` is called again on the same Problem and the requests are
              repeated; a coloring from an earlier setup must never survive.
+``subcolor`` a component that declares a *partial* coloring over a subset of its inputs
+             (``declare_coloring(wrt=[...], method='cs')``) while its other partials are analytic
+             (sparse ``declare_partials`` + ``compute_partials``), in a model whose driver also
+             declares a total coloring; colored totals (first and second call) vs an uncolored twin
+             and vs the exact matrix, fwd / rev / auto.
 ``partial``  colored vs uncolored partials: a component with ``declare_coloring(method='cs')``
              (approximation_scheme.py) and an ``om.ExecComp`` (exec_comp.py) with that pattern; and
              a bilinear ExecComp (``y_r = sum a_rc x_c v_c``) whose first linearization, where it
@@ -418,6 +423,55 @@ def requests_problem(case, colored):
     return p
 
 
+def subcolor_problem(case, total_coloring):
+    import openmdao.api as om
+    A = matrix(case)
+    m, n = A.shape
+    sizes, colored = case['sizes'], case['colored']
+    offs = np.cumsum([0] + sizes)
+    names = ['x%d' % j for j in range(len(sizes))]
+    # most cases keep colorings even if they save nothing (default: dropped below 5% improvement)
+    keep = {'min_improve_pct': 0.} if case.get('keep', True) else {}
+
+    class SubC(om.ExplicitComponent):
+        def setup(self):
+            for j, nm in enumerate(names):
+                self.add_input(nm, np.ones(sizes[j]))
+            self.add_output('y', np.zeros(m))
+            self.blocks = {}
+            for j, nm in enumerate(names):
+                if colored[j]:
+                    continue
+                B = A[:, offs[j]:offs[j + 1]]
+                r, c = np.nonzero(B)
+                if r.size:
+                    self.declare_partials('y', nm, rows=r, cols=c)
+                    self.blocks[nm] = B[r, c].astype(float)
+            self.declare_coloring(wrt=[nm for j, nm in enumerate(names) if colored[j]],
+                                  method='cs', show_summary=False, **keep)
+
+        def compute(self, inputs, outputs):
+            outputs['y'] = A @ np.concatenate([inputs[nm] for nm in names])
+
+        def compute_partials(self, inputs, partials):
+            for nm, vals in self.blocks.items():
+                partials['y', nm] = vals
+
+    p = om.Problem()
+    ivc = p.model.add_subsystem('ivc', om.IndepVarComp(), promotes=['*'])
+    for j, nm in enumerate(names):
+        ivc.add_output(nm, 0.5 * np.arange(1, sizes[j] + 1))
+        p.model.add_design_var(nm)
+    comp = p.model.add_subsystem('c', SubC(), promotes=['*'])
+    p.model.add_constraint('y', lower=0.)
+    p.driver = om.ScipyOptimizeDriver()
+    if total_coloring:
+        p.driver.declare_coloring(direct=case['direct'], show_summary=False, **keep)
+    p.setup(mode=case['mode'], force_alloc_complex=True)
+    p.run_model()
+    return p, comp
+
+
 def partial_exact(case):
     """Exact partial jacobian of a `partial` case at the point where it is evaluated, in the layout
     compute_totals is asked for (columns: x, then v for the bilinear ExecComp)."""
@@ -496,7 +550,9 @@ class C03(Property):
             "with fixed or dynamic coloring and optional driver scaling; (requests) a colored driver followed by "
             "a sequence of compute_totals requests with other (of, wrt) layouts - subset / reordered of "
             "only, wrt only, both, default again, custom first - each compared entry by entry with an "
-            "uncolored twin, in fwd, rev and auto mode, half of the dynamic ones continued by changing the "
+            "uncolored twin, in fwd, rev and auto mode; (subcolor) a component with a partial cs coloring "
+            "over a subset of its inputs and analytic partials for the rest under a driver with a total "
+            "coloring, colored vs uncolored totals; (requests, continued) half of the dynamic ones continued by changing the "
             "component's sparsity through an option, setup() again on the same Problem (once or twice) and "
             "repeating the requests, the final coloring certified against the last sparsity; (partial) colored vs uncolored "
             "partials of a cs-approximated component and of an ExecComp. Non-trivial: some color holds "
@@ -596,6 +652,35 @@ class C03(Property):
                 if i % 4 == 0:
                     case['resetup'].append({'nz': case['nz'], 'vseed': rng.randrange(10 ** 9)})
             out.append(case)
+        # partial coloring over a subset of a component's inputs + total coloring on the driver
+        n_sub = 10 if quick else 120
+        for i in range(n_sub):
+            fam = ['band', 'arrow', 'blockdiag', 'sparse+partial'][i % 4]
+            nin = rng.choice([2, 2, 3])
+            sizes = [rng.randint(2, 5) for _ in range(nin)]
+            n = sum(sizes)
+            m = rng.randint(3, 7)
+            if fam == 'band':
+                bw = rng.randint(0, 1)
+                sh = rng.randint(0, max(0, n - m))
+                J = np.array([[abs(r + sh - c) <= bw for c in range(n)] for r in range(m)])
+            else:
+                J = family(rng, fam, m, n)
+            for r in range(m):
+                if not J[r].any():
+                    J[r, rng.randrange(n)] = True
+            for c in range(n):
+                if not J[:, c].any():
+                    J[rng.randrange(m), c] = True
+            colored = [False] * nin
+            for j in rng.sample(range(nin), rng.randint(1, nin - 1)):
+                colored[j] = True
+            if i % 2 == 0:
+                colored = [False] + [True] * (nin - 1)    # an analytic input ahead of the colored ones
+            out.append({'k': 'subcolor', 'm': m, 'n': n, 'nz': nz_of(J), 'fam': fam,
+                        'vseed': rng.randrange(10 ** 9), 'sizes': sizes, 'colored': colored,
+                        'mode': ['fwd', 'rev', 'auto'][i % 3], 'direct': rng.random() < 0.5,
+                        'keep': i % 5 != 4})
         if quick:
             out.extend(exhaustive(9, sample_vectors=(rng, 40)))
         else:
@@ -668,6 +753,9 @@ class C03(Property):
                 if case['k'] == 'requests':
                     from common import in_tempdir
                     return in_tempdir(lambda: self.impl_requests(case))
+                if case['k'] == 'subcolor':
+                    from common import in_tempdir
+                    return in_tempdir(lambda: self.impl_subcolor(case))
         except Exception as e:
             return {'error': type(e).__name__, 'msg': str(e)[:300]}
         raise Infra('unknown case kind %r' % case.get('k'))
@@ -769,6 +857,29 @@ class C03(Property):
             res['shape'] = [int(col._shape[0]), int(col._shape[1])]
         return res
 
+    def impl_subcolor(self, case):
+        A = matrix(case)
+        scale = max(1.0, float(np.abs(A).max()))
+        names = ['x%d' % j for j in range(len(case['sizes']))]
+        pu, cu = subcolor_problem(case, False)
+        pc, cc = subcolor_problem(case, True)
+        Ju = np.array(pu.compute_totals(of=['y'], wrt=names, return_format='array'))
+        J1 = np.array(pc.compute_totals(return_format='array'))
+        J2 = np.array(pc.compute_totals(return_format='array'))
+        col = pc.driver._coloring_info.coloring
+        pcol = cc._coloring_info.coloring
+        res = {'err': float(max(np.abs(J1 - Ju).max(), np.abs(J2 - Ju).max())) / scale,
+               'err_exact': float(max(np.abs(J1 - A).max(), np.abs(J2 - A).max())) / scale,
+               'unc_err': float(np.abs(Ju - A).max()) / scale,
+               'bad': [[int(r), int(c), float(J2[r, c]), float(Ju[r, c])]
+                       for r, c in np.argwhere(np.abs(J2 - Ju) > PARTIAL_TOL * scale)[:6]],
+               'col': None if col is None else colj(col),
+               'partial_coloring_kept': pcol is not None}
+        if col is not None:
+            res['sparsity'] = sparsity_of(col)
+            res['shape'] = [int(col._shape[0]), int(col._shape[1])]
+        return res
+
     def impl_partial(self, case):
         A = matrix(case)
         p0, c0, J0 = partial_problem(case, False)
@@ -846,6 +957,17 @@ class C03(Property):
                                 "or needs more solves than no coloring", 'code': 'request-coloring',
                         'shape': impl['shape'], 'total': col['total']}
             return None
+        if case['k'] == 'subcolor':
+            if impl['err'] > PARTIAL_TOL or impl['err_exact'] > PARTIAL_TOL:
+                return {'what': 'colored total derivatives differ from uncolored ones (component with a '
+                                'partial coloring over a subset of its inputs, total coloring on the '
+                                'driver)', 'code': 'subcolor-totals', 'err': impl['err'],
+                        'err_exact': impl['err_exact'], 'entries': impl['bad']}
+            if impl['col'] is not None and impl['col']['total'] > \
+                    {'fwd': n, 'rev': m, 'auto': min(m, n)}[case['mode']]:
+                return {'what': 'the coloring used needs more solves than no coloring',
+                        'code': 'solves', 'total': impl['col']['total']}
+            return None
         if case['k'] == 'partial':
             if impl['err'] > PARTIAL_TOL or impl['err_exact'] > PARTIAL_TOL:
                 return {'what': 'colored partial derivatives differ from uncolored ones',
@@ -910,6 +1032,12 @@ class C03(Property):
             if 'bidir_s' in impl['cols']:
                 b.append('MNCO/substitution subtractions:%s'
                          % ('nonempty' if impl['cols']['bidir_s']['subs'] else 'empty'))
+        elif case['k'] == 'subcolor':
+            col = impl['col']
+            b.append('subcolor: mode=%s inputs=%d colored=%s total coloring=%s partial coloring %s' % (
+                case['mode'], len(case['sizes']), ''.join('c' if x else 'a' for x in case['colored']),
+                'none' if col is None else 'bidirectional' if col['fwd'] and col['rev'] else
+                'fwd' if col['fwd'] else 'rev', 'kept' if impl['partial_coloring_kept'] else 'dropped'))
         elif case['k'] == 'requests':
             col = impl['col']
             b.append('requests: mode=%s %s first=%s coloring=%s' % (
@@ -956,6 +1084,9 @@ class C03(Property):
             rq = {'op': 'certify', 'col': impl['col'], 'tag': 'used', 'nz': impl['sparsity']}
             if 'shape' in impl:
                 rq['nrows'], rq['ncols'] = impl['shape']
+            if case['k'] == 'subcolor':
+                # the total coloring must be one for the true total jacobian pattern
+                rq['nz'] = sorted(case['nz'])
             if case['k'] == 'requests':
                 # the coloring the driver ends with must be one for the sparsity of the LAST setup
                 rq['nz'] = sorted((case.get('resetup') or [case])[-1]['nz'])
